@@ -174,7 +174,11 @@ def flow_limit(tab, dp_pa):
     reaches it (no constraint inside the table)."""
     rows = sorted((float(r[3]), float(r[2])) for r in tab)   # by dp
     if dp_pa >= rows[-1][0]:
-        return None
+        # above the tabulated range: the tables of this harness follow
+        # dp = C * flow**1.8 (table()), so the flow at which the limit is
+        # reached is known beyond the last row as well; the code may hold a
+        # flow back earlier (it knows the table only), never later
+        return rows[-1][1] * (dp_pa / rows[-1][0]) ** (1.0 / 1.8)
     if dp_pa <= rows[0][0]:
         # the limit lies below the tabulated range: what the flow limit is
         # there is not defined by the table (the code clamps to the lowest
